@@ -486,6 +486,8 @@ LevelCmds(lvl) == IF lvl.tail.kind = "cmd" THEN RangeOf(lvl.tail.cmds) ELSE {}
 \* the user's completer for the argument being typed, and the `--` hint of strict positionals
 MayOffer(s, p) ==
   LET lvls == {s.frames[k].lvl : k \in DOMAIN s.frames} IN
+  \* after `--` everything typed is data: no name, no subcommand and no `--` is a candidate any more
+  IF s.posOnly THEN {} ELSE
   UNION {{Pref(l.named[k]) : k \in {k \in DOMAIN l.named : ~l.named[k].hidden /\ NameMatches(l.named[k], p)}} : l \in lvls}
   \cup UNION {{c.names[1] : c \in {c \in LevelCmds(l) : CmdMatches(c, p)}} : l \in lvls}
   \cup (IF s.pending # "" THEN RangeOf(ItemById(Cur(s).lvl, s.pending).completer) ELSE {})
@@ -510,7 +512,7 @@ Partials(d) ==
   \cup UNION {{[k |-> "short", s |-> l.named[j].shorts[1]] : j \in {j \in DOMAIN l.named : l.named[j].shorts # <<>>}} : l \in AllLevels(d)}
   \cup UNION {UNION {{[k |-> "word", cs |-> SubSeq(c.nchars[1], 1, n)] : n \in {1, Len(c.nchars[1])}} : c \in LevelCmds(l)} : l \in AllLevels(d)}
 \* states in which completion is asked: a line that can still become a sentence
-Viable(s) == /\ s.dead = "" /\ ~s.helpAt.set /\ ~s.verAt.set /\ ~s.outside /\ ~s.ambig /\ ~s.frozen /\ ~s.posOnly
+Viable(s) == /\ s.dead = "" /\ ~s.helpAt.set /\ ~s.verAt.set /\ ~s.outside /\ ~s.ambig /\ (~s.frozen \/ s.posOnly)
              /\ \A k \in DOMAIN s.frames : \A j \in DOMAIN s.frames[k].lvl.named :
                    LET it == s.frames[k].lvl.named[j]  occ == s.frames[k].acc[it.id] IN
                    /\ SingleUse(it) => Len(occ) <= 1
